@@ -118,7 +118,36 @@ func TestC07(t *testing.T) {
 			}
 			return memnet.Outcome{Accept: -1, StallAt: int(x>>8) % len(b)}
 		}
-		conn, err := diam.NewConn(mc, "peer", diam.HandlerFunc(func(diam.Conn, *diam.Message) {}), ctx.Parser)
+		// a quarter of the runs write on a connection accepted by a Server that has
+		// read and write timeouts configured, and mostly large messages
+		serverSide := c.I%4 == 1
+		var conn diam.Conn
+		var err error
+		if serverSide {
+			got := make(chan diam.Conn, 1)
+			srv := &diam.Server{Dict: ctx.Parser, ReadTimeout: time.Hour, WriteTimeout: time.Hour,
+				Handler: diam.HandlerFunc(func(dc diam.Conn, _ *diam.Message) {
+					select {
+					case got <- dc:
+					default:
+					}
+				})}
+			ln := memnet.NewListener()
+			go srv.Serve(ln)
+			defer ln.Close()
+			ln.Offer(mc)
+			hello, _ := c07Message(ctx, 0x7fff, 0, 60)
+			hb, _ := hello.Serialize()
+			mc.Feed(hb)
+			select {
+			case conn = <-got:
+			case <-time.After(30 * time.Second):
+				c.Fail(ev.Sig{"op": "watchdog"}, nil, nil, "the server did not hand over the accepted connection in 30 s")
+				return
+			}
+		} else {
+			conn, err = diam.NewConn(mc, "peer", diam.HandlerFunc(func(diam.Conn, *diam.Message) {}), ctx.Parser)
+		}
 		if err != nil {
 			c.Fail(ev.Sig{"op": "setup"}, nil, nil, "NewConn: %v", err)
 			return
@@ -131,8 +160,11 @@ func TestC07(t *testing.T) {
 		for w := 0; w < W; w++ {
 			for s := 0; s < per; s++ {
 				sz := c07Sizes[r.IntN(len(c07Sizes))]
-				if sz == 20000 && r.IntN(4) != 0 {
+				if sz == 20000 && r.IntN(4) != 0 && !serverSide {
 					sz = 1030
+				}
+				if serverSide && r.IntN(2) == 0 {
+					sz = 20000 + 4*r.IntN(12000)
 				}
 				plan[w] = append(plan[w], sz)
 				sizes[uint32(w)<<16|uint32(s)] = sz
@@ -181,7 +213,7 @@ func TestC07(t *testing.T) {
 			return
 		}
 		order, problem := checkWireLog(mc.Written(), okIDs, sizes)
-		c.Class("writers=%d/non-atomic-transport=%v", W, mc.NonAtomic)
+		c.Class("writers=%d/non-atomic-transport=%v/server-side-with-timeouts=%v", W, mc.NonAtomic, serverSide)
 		if problem != "" {
 			c.Fail(ev.Sig{"op": "wire-log", "writers": W}, nil, nil, "%d writers x %d messages: %s", W, per, problem)
 			return
